@@ -327,3 +327,26 @@ META["C09"] = dict(
     level_note="Trusts the reference decoder and the value generators; sampled value space.",
     design_ref="DESIGN.md §5 C09",
 )
+
+PLANS["C11"] = dict(
+    level="exploration",
+    rule=("(a) cookie jars of 1-6 cookies (known names incl. '_ga', 'a.b-c', 'X!tok' and unknown names over the RFC token alphabet; values: empty, base64 with '=' padding, 'a=b=c', Unicode, "
+          "directive look-alikes, all cookie-octets) each value sent plain, percent-encoded or double-quoted, shuffled, decoded into three struct shapes (String/u32/Option/Cow fields, renamed fields, "
+          "unknown cookies) with serde_cookie::from_str and iterated with req.headers.Cookies() on a request parsed by the real reader; (b) Set-Cookie built through "
+          "res.headers.set().SetCookie(name, value, directives) for every one of the 128 directive subsets (Expires, Max-Age in {0,1,3600,2^32,u64::MAX}, Domain, Path, Secure, HttpOnly, SameSite) x "
+          "value classes, serialised by the real send, checked against an RFC 6265 set-cookie-string grammar parser, parsed back by that parser and by the crate's own SetCookie accessors. "
+          "distinct_nontrivial = distinct (jar shape, encoding set) and (directive subset, value class)."),
+    quick=[R("c11", "rel", 6_000), R("c11", "miri", 16, shards=8, flags={"small": 1})],
+    thorough=[R("c11", "rel", 300_000), R("c11", "dbg", 40_000), R("c11", "asan", 40_000), R("c11", "miri", 160, shards=16, flags={"small": 1})],
+    floors={"quick": {"evaluations": 140_000, "distinct": 700, "typed_decoded_equal": 45_000, "iterator_equal": 45_000, "set_cookie_reference_round_trip": 45_000, "set_cookie_own_round_trip": 45_000},
+            "thorough": {"evaluations": 7_000_000, "distinct": 800}},
+    assumptions=["plain (unencoded) values never contain '%': the decoder percent-decodes, so a conforming sender that percent-encodes at all encodes '%'", "the iterator may yield quoted values with or without their quotes",
+                 "Max-Age grammar taken as 1*DIGIT (RFC 6265bis)"],
+)
+META["C11"] = dict(
+    engine="vh c11",
+    technique="runtime monitoring: round-trip oracles against an independent RFC 6265 encoder / set-cookie-string parser, over generated jars and all 128 directive subsets, through the real decoder, request reader, response builder and serializer",
+    level_text="Typed decoding, the cookie iterator and Set-Cookie building are each executed on generated inputs and compared with the jar / re-parsed with an independent grammar parser and the crate's own parser.",
+    level_note="Trusts the harness's RFC 6265 codec. Directive subsets are exhaustive (128); values and jars sampled.",
+    design_ref="DESIGN.md §5 C11",
+)
